@@ -455,6 +455,8 @@ class ModelEngine(Engine):
             if not pos.flags['C_CONTIGUOUS']:
                 ctx.probe('noncontiguous_input')
         atoms = ctx.must('C10.X', am.Atoms, atype=np.array(op['atype'], dtype=int), pos=pos, klass='Atoms()', **arrs)
+        snap = {nm: np.array(atoms.view[nm]) for nm in atoms.view}
+        system = None
         units = dict(op['units'])
         names = ['atype', 'pos'] + sorted(arrs)
         if op['subset'] and len(names) > 2:
@@ -503,6 +505,7 @@ class ModelEngine(Engine):
                 skw['masses'] = list(op['masses'])[:ntyp]
             pbc = [bool(x) for x in op['pbc']]
             system = ctx.must('C10.X', am.System, atoms=atoms, box=box, pbc=pbc, klass='System()', **skw)
+            snap_box = (np.array(system.box.vects), np.array(system.box.origin))
             kw['box_unit'] = op['box_unit']
             if op['via'] == 'dump' and op['enc'] != 'dm':
                 fmt = op['enc']
@@ -541,6 +544,16 @@ class ModelEngine(Engine):
             t.fields['vects'] = {'si': np.array(op['V'], dtype=float), 'dim': ut.L_, 'tagged': boxtag}
             t.fields['origin'] = {'si': np.array(op['origin'], dtype=float), 'dim': ut.L_, 'tagged': boxtag}
             t.meta['box_tagged'] = boxtag
+        # "the original" is the object the caller still holds: writing it out must not have changed it
+        live = system.atoms if system is not None else atoms
+        for nm, before in snap.items():
+            now = np.asarray(live.view[nm])
+            if now.shape != before.shape or not np.array_equal(now, before):
+                raise Violation('C10.J7', {'what': 'serialising changed the object that was serialised', 'property': nm,
+                                           'before': before, 'after': now, 'via': op.get('via'), 'units': op['units'].get(nm)},
+                                klass='mutated-by-write/%s/%s' % (what, 'pos' if nm == 'pos' else 'prop'))
+        if system is not None and not (np.array_equal(system.box.vects, snap_box[0]) and np.array_equal(system.box.origin, snap_box[1])):
+            raise Violation('C10.J7', {'what': 'serialising changed the box of the system that was serialised'}, klass='mutated-by-write/box')
         t.fields['natoms'] = {'exact': n}
         t.meta['names'] = list(names)
         for nm in names:
